@@ -460,6 +460,7 @@ def judge(P, roots, here):
     rev = {e["key"]: e for e in table["sites"]}
     was_discharged = set(table.get("discharged_on_pinned_tree", []))
     used = {}
+    seen_discharged = set()
     rows = []
     problems = []
     review = []
@@ -468,6 +469,7 @@ def judge(P, roots, here):
         key = key_of(f, kind, bb)
         d = discharge(P, f, kind, bb)
         if d:
+            seen_discharged.add(key)
             rows.append((f, kind, bb, key, "discharged: " + d))
             continue
         if key in was_discharged:
@@ -525,7 +527,15 @@ def judge(P, roots, here):
             free[cand] -= 1
             rows.append((f, kind, bb, key, "reviewed (site moved or renamed; matched by kind and type)"))
             continue
-        if kind == "panic" or kind.startswith("unwrap"):
+        # an explicit unwrap that *replaces* a reviewed panic-capable site of the same function
+        # (an index turned into `iter.next().unwrap()`) is a changed obligation, not a new one
+        fn_prefix = key.split("|")[0] + "|"
+        replaced = any(k2.startswith(fn_prefix) and e2["count"] - used.get(k2, 0) > 0 for k2, e2 in rev.items()) or \
+            any(k2.startswith(fn_prefix) and k2 not in seen_discharged for k2 in was_discharged)
+        if (kind == "panic" or kind.startswith("unwrap")) and replaced and kind != "panic":
+            rows.append((f, kind, bb, key, "NEEDS-REVIEW"))
+            review.append((key, "a panic-capable site (%s) took the place of a reviewed one in this function: the obligation is open (not evidence of a violation)" % kind, f.where(bb)))
+        elif kind == "panic" or kind.startswith("unwrap"):
             rows.append((f, kind, bb, key, "UNREVIEWED"))
             problems.append((key, "a new explicit panic site (%s) is reachable: the code can abort where it used to return" % kind, f.where(bb)))
         else:
